@@ -182,6 +182,10 @@ func canon(names map[reflect.Type]string, v reflect.Value, toks map[lexer.Positi
 			canon(names, v.Elem(), toks, sb)
 		}
 	case reflect.Slice:
+		if v.IsNil() && v.Type().Elem() == reflect.TypeOf(lexer.Token{}) {
+			sb.WriteString("nil") // a []lexer.Token field no capture wrote
+			return
+		}
 		sb.WriteString("[")
 		for i := 0; i < v.Len(); i++ {
 			if i > 0 {
